@@ -98,8 +98,50 @@ func inductionOf(v ssa.Value) (*induction, bool) {
 }
 
 // cellOf identifies a local variable cell: load of an Alloc, or load of a free variable bound to one.
+// anonParamArg: the argument that a function literal called (or started with go / defer) on the spot receives for its
+// parameter p; nil when the literal has another use or more than one such site.
+func anonParamArg(p *ssa.Parameter) ssa.Value {
+	fn := p.Parent()
+	if fn == nil || fn.Parent() == nil {
+		return nil
+	}
+	idx := -1
+	for i, q := range fn.Params {
+		if q == p {
+			idx = i
+		}
+	}
+	if idx < 0 {
+		return nil
+	}
+	var arg ssa.Value
+	n := 0
+	for _, pf := range withAnons(rootFn(fn)) {
+		for _, ci := range callsIn(pf) {
+			cv := ci.Common().Value
+			if mc, ok := cv.(*ssa.MakeClosure); ok {
+				cv = mc.Fn
+			}
+			if cv == ssa.Value(fn) && !ci.Common().IsInvoke() && idx < len(ci.Common().Args) {
+				arg = ci.Common().Args[idx]
+				n++
+			}
+		}
+	}
+	if n != 1 || fn.Referrers() != nil && len(*fn.Referrers()) > 1 {
+		return nil
+	}
+	return arg
+}
+
 func cellOf(v ssa.Value) ssa.Value {
 	v = stripConv(v)
+	if p, ok := v.(*ssa.Parameter); ok {
+		if a := anonParamArg(p); a != nil {
+			return cellOf(a)
+		}
+		return v
+	}
 	u, ok := v.(*ssa.UnOp)
 	if !ok || u.Op != token.MUL {
 		return v
